@@ -6,7 +6,8 @@ if ! /venv/bin/python -c "import hypothesis" 2>/dev/null; then
 fi
 /venv/bin/python -c "import hypothesis, sys; print('hypothesis', hypothesis.__version__)"
 # atheris (coverage-guided campaigns of the thorough tier) goes beside the framework, not into /venv
-if [ ! -d /verif/.deps/atheris ]; then
-  /venv/bin/pip install -q --no-index --find-links /opt/veriftools/wheels --target /verif/.deps atheris || echo "atheris not installed: fuzz stages will be skipped"
+HERE=$(cd "$(dirname "$0")" && pwd)
+if [ ! -d "$HERE/.deps/atheris" ]; then
+  /venv/bin/pip install -q --no-index --find-links /opt/veriftools/wheels --target "$HERE/.deps" atheris || echo "atheris not installed: fuzz stages will be skipped"
 fi
-cd /verif && PYTHONPATH=/repo:/verif /venv/bin/python -c "import vf.check, vf.worker, vf.replay; import csvpath; print('csvpath from', csvpath.__file__)"
+cd "$HERE" && PYTHONPATH=/repo:$HERE /venv/bin/python -c "import vf.check, vf.worker, vf.replay; import csvpath; print('csvpath from', csvpath.__file__)"
